@@ -556,3 +556,18 @@ package keeper
 //@   ensures[C18.dxg.states]  defined(res_AllDelegationStates_0) && r0.DelegationStates == res_AllDelegationStates_0
 //@   ensures[C18.dxg.stakers] defined(res_AllStakerList_0) && r0.StakersByOperator == res_AllStakerList_0
 //@   ensures[C18.dxg.undel]   defined(res_AllUndelegations_0) && r0.Undelegations == res_AllUndelegations_0
+
+// C18 (initialising from the exported document reproduces the module's state): every collection of the document is
+// handed to the setter of its own collection, unchanged.
+//@ func (Keeper).InitGenesis
+//@   requires ctx.height >= 0
+//@   flag noframe
+//@   flag pure=ParseID,FromHex,AccAddressFromBech32,Wrap
+//@   flag havoc=AssociateOperatorWithStaker,SetAllDelegationStates,SetAllStakerList,SetUndelegationRecords
+//@   before[C18.dig.states]  SetAllDelegationStates requires arg_delegationStates == gs.DelegationStates
+//@   before[C18.dig.stakers] SetAllStakerList requires arg_stakersByOperator == gs.StakersByOperator
+//@   before[C18.dig.undel]   SetUndelegationRecords requires arg_records == gs.Undelegations
+//@   ensures[C18.dig.all] defined(res_SetAllDelegationStates_0) && defined(res_SetAllStakerList_0) && defined(res_SetUndelegationRecords_0)
+//@ loop #1
+//@   invariant true
+//@   step[C18.dig.assoc] defined(res_AssociateOperatorWithStaker_0)
